@@ -10,6 +10,12 @@ CHECKS = {
  "C02": ("pv-codec", "exploration", "proptest generated (buffer, decoder-call program) + exhaustive 0xff-run/truncation families; no-panic and cursor-in-bounds oracle",
    "Every public decoder entry point is driven over buffers <= 64 bytes: exhaustively for all continuation-run lengths x entry points x leading bit counts and for all truncations of boundary encodings, and by generated programs of 1..16 calls over random / structured buffers. Oracle: each call returns Ok or Err (panics are caught and reported with a root-cause signature) and the cursor stays inside the buffer.",
    "Built with debug-assertions and overflow-checks on (the semantics the project's own test profile uses), so arithmetic overflow is a panic. bits8(0) is outside the domain."),
+ "C03": ("pv-codec", "exploration", "proptest: in-memory value recipes + cborx grammar of accepted encodings; round-trip / byte-identity oracle via an independent CBOR writer",
+   "Three generated families: (a) values of every helper type built from plain recipes must satisfy decode(to_vec(v)) == v, consume everything and encode to one well-formed item (checked by the independent cborx reader); (b) encodings drawn from a grammar of what each wrapper accepts (non-minimal heads, indefinite strings and containers, tags, simple values, floats, depth <= 3) must re-encode byte-identically for the form-keeping wrappers and value-stably for the rest; (c) KeepRaw mutated through deref_mut must re-encode from its content. Accept rates of the grammars are measured and asserted.",
+   "Form preservation of KeyValuePairs / NonEmptyKeyValuePairs / MaybeIndefArray is asserted only when the container's own length head is minimal (they document keeping definite-vs-indefinite only). Inputs rejected by a decoder are counted as discards."),
+ "C04": ("pv-codec", "exploration", "bounded-exhaustive boundary family + proptest; cborx-built Conway values/bodies; zero=>Err, admissible=>Ok(value) oracle",
+   "Every (site x sign x boundary magnitude x admissible head width x sibling slot) combination is enumerated, plus random magnitudes: the integer is decoded as PositiveCoin / NonZeroInt directly and at the asset-quantity, mint, collateral-return and donation positions of Conway values and transaction bodies written by the independent cborx writer. Oracle in both directions: zero must be rejected, admissible non-zero must be accepted with exactly the encoded number, and no Ok result may hold 0.",
+   "Synthetic bodies contain only the mandatory fields plus the probed one; out-of-range magnitudes only need to not produce a zero."),
 }
 
 NOT_YET = {}
